@@ -98,6 +98,147 @@ def replay_limit(args):
 REPLAYERS = {"limit": replay_limit}
 
 
+def run_weights(chk):
+    """FFNS vs FFN0 through the real Combiner with symbolic electroweak parameters and Q2: for every heavy-quark channel family (quark-initiated incl. the
+    'missing' term, gluon, singlet, intrinsic) the SET of parton-weight vectors of the massive kernels equals the set carried by the asymptotic kernels that
+    replace them (a limit can only hold channel by channel if the couplings agree); decided parton by parton by z3 for all parameter values."""
+    import z3 as _z3
+
+    cells = WEIGHT_CELLS if chk.tier != "quick" else [c for i, c in enumerate(WEIGHT_CELLS) if i % 7 == 0 or (c[0] == "F2" and c[1] in ("light", "total") and c[2] == "EM" and c[5] == 2)]
+    n = 0
+    for cell in cells:
+        cname = "weights:" + ":".join(str(c) for c in cell)
+        with Ctx(chk.seed) as ctx, cm.fixed_nf(), cm.generic_drop_empty(), stubs.cf_stubs():
+            def body(cell=cell):
+                return weight_forms(ctx, cell, "FFNS"), weight_forms(ctx, cell, "FFN0")
+
+            ex = explore.Explorer(ctx, max_paths=8, timeout_ms=3000)
+            paths = ex.run(body)
+            chk.paths += len(paths)
+            for i, p in enumerate(paths):
+                ctx.assign = dict(p.assign)
+                if p.kind == "exc":
+                    chk.notes.append(f"{cname}/path{i}: raises {type(p.value).__name__}: {str(p.value)[:80]} (C16)")
+                    continue
+                a, b = p.value
+                fams = sorted({f for f, _ in list(a) + list(b)})
+                for fam in fams:
+                    fa = [w for (f, m), ws in a.items() if f == fam for w in ws]
+                    fb = [w for (f, m), ws in b.items() if f == fam for w in ws]
+                    for src, dst, what in ((fa, fb, "massive -> asymptotic"), (fb, fa, "asymptotic -> massive")):
+                        if fam == "intrinsic" and what == "massive -> asymptotic":
+                            # the massive heavy-quark-initiated channels come in pairs (S+/S-, R+/R-) with couplings VV+AA and VV-AA; the second member is
+                            # itself power suppressed (~ m1 m2/Q2) and has no asymptotic twin: only the direction asymptotic -> massive is a claim
+                            continue
+                        for w in src:
+                            chk.obligations += 1
+                            chk.evaluations += 1
+                            chk.nontrivial.add(f"{cname}/{fam}")
+                            n += 1
+                            # some twin carries the same weight for every parton (absent = 0), for all electroweak parameters and Q2
+                            alts = []
+                            for w2 in dst:
+                                keys = set(w) | set(w2)
+                                alts.append(_z3.And(*[S.lift(w.get(k, 0)).t == S.lift(w2.get(k, 0)).t for k in keys]))
+                            zero = _z3.And(*[S.lift(v).t == 0 for v in w.values()])
+                            v = chk.prover.prove(_z3.Or(zero, *alts) if alts else zero, ctx.facts() + list(p.pc), f"{cname}/{fam}: {what}")
+                            if v.status == "unsat":
+                                chk.discharged += 1
+                                continue
+                            if v.status == "unknown":
+                                chk.inconclusive_note(f"{cname}/{fam}: solver returned unknown")
+                                continue
+                            asg = explore.model_to_assign(ctx, v.model)
+                            params = {k_: float(asg.get(k_, ctx.assign.get(k_, 1))) for k_ in list(cm.EW_PARAMS) + ["Q2"]}
+                            chk.report(f"weights:{fam}:{cell[0]}:{cell[2]}", f"{cname}: a {fam} kernel ({what}) has no twin with the same parton weights", "weights",
+                                       dict(cell=list(cell), family=fam, params=params))
+    chk.section("weights", cells=len(cells), kernel_weight_vectors=n)
+
+
+# ---- couplings: the asymptotic kernels carry the weights of the massive kernels they stand for -----------------------------------------------
+
+def family(cls):
+    n = cls.__name__
+    if n in ("Splus", "Sminus", "Rplus", "Rminus") or "Intrinsic" in n:
+        return "intrinsic"
+    if "NonSinglet" in n or "Quark" in n:
+        return "quark"
+    if "Gluon" in n:
+        return "gluon"
+    if "Singlet" in n or "Valence" in n:
+        return "singlet"
+    return n
+
+
+WEIGHT_CELLS = [(kind, flav, proc, pid, nf, pto) for kind in ("F2", "FL", "F3", "g1") for flav in ("total", "light", "charm", "bottom")
+                for proc, pid in (("EM", 11), ("NC", 11), ("NC", -12), ("CC", 12), ("CC", -11)) for nf in (3, 4) for pto in (1, 2)
+                if not (proc == "EM" and kind == "F3") and not (proc == "CC" and kind == "g1") and not (flav == "charm" and nf == 4)]
+
+
+def weight_forms(ctx_or_vals, cell, scheme):
+    """{(family, mass key): [weights dict, ...]} of the heavy-quark kernels (massive: heavy/intrinsic modules; asymptotic: asy modules) the real Combiner collects"""
+    import yadism.coefficient_functions as cf
+
+    kind, flav, proc, pid, nf, pto = cell
+    if hasattr(ctx_or_vals, "var"):
+        P = cm.ew_params(ctx_or_vals)
+        Q2 = ctx_or_vals.var("Q2", 0, None, wlo=30, whi=90)
+    else:
+        P = cm.ew_params(values=ctx_or_vals)
+        Q2 = ctx_or_vals.get("Q2", 50.0)
+    cc = cm.make_coupling(P, proc, pid)
+    zm = tuple(i < nf - 3 for i in range(3))
+    cfg = cm.make_configs(cc, pto=pto, pto_evol=pto, scheme=scheme, nf_ff=nf, ZMq=zm, m2hq=cm.M2HQ, threshold=nf)
+    ks = cf.Combiner(cm.make_esf(cfg, f"{kind}_{flav}", 0.1, Q2)).collect_elems()
+    out = {}
+    for k in ks:
+        mod = type(k.coeff).__module__
+        if not any(f".{m}." in mod for m in ("heavy", "intrinsic", "asy")):
+            continue
+        c = k.coeff
+        mkey = None
+        for attr in ("m2hq", "m1sq", "_yv_m2"):
+            if hasattr(c, attr):
+                mkey = getattr(c, attr)
+                break
+        out.setdefault((family(type(c)), mass_index(c)), []).append(dict(k.partons))
+    return out
+
+
+def mass_index(c):
+    """which heavy quark a kernel belongs to (index into M2HQ), read off the mass the class was built with"""
+    for attr in ("m2hq", "m1sq", "m2sq"):
+        v = getattr(c, attr, None)
+        if v is not None and not hasattr(v, "t"):
+            for i, m in enumerate(cm.M2HQ):
+                if abs(float(v) - float(m)) < 1e-9:
+                    return i
+    L = getattr(c, "L", None)
+    if L is not None:
+        return ("L", str(getattr(L, "t", L))[:60])
+    return None
+
+
+def replay_weights(args):
+    cell = tuple(args["cell"])
+    with cm.fixed_nf():
+        a, b = weight_forms(dict(args["params"]), cell, "FFNS"), weight_forms(dict(args["params"]), cell, "FFN0")
+    fam = args["family"]
+    fa = [w for (f, m), ws in a.items() if f == fam for w in ws]
+    fb = [w for (f, m), ws in b.items() if f == fam for w in ws]
+    def key(w):
+        return tuple(sorted((p, round(float(v), 10)) for p, v in w.items() if abs(float(v)) > 1e-12))
+    sa, sb = {key(w) for w in fa} - {()}, {key(w) for w in fb} - {()}
+    if fam == "intrinsic":
+        sa = sa | sb if sb <= sa else sa  # only asymptotic -> massive is claimed for the heavy-quark-initiated channels
+    if sa != sb:
+        return True, f"{cell}: {fam} kernels: massive weights {sorted(sa - sb)[:2]} have no asymptotic twin / asymptotic weights {sorted(sb - sa)[:2]} no massive one"
+    return False, "same sets of weights"
+
+
+REPLAYERS["weights"] = replay_weights
+
+
 def run(chk, only=None):
     stubs._preimport()
     real.PI_CONSISTENT[0] = True
@@ -206,6 +347,7 @@ def run(chk, only=None):
                             xx = g("x") if 0 < g("x") < 1 else 0.1
                             chk.report(f"limit:{kind}.{hname}:o{order}:{part}", f"{label}: the massive coefficient function does not tend to its asymptotic counterpart",
                                        "limit", dict(kind=kind, hname=hname, aname=aname, order=order, part=part, z=zz, x=xx, Q2=max(g("Q2"), 1.0)))
+    run_weights(chk)
     # vacuity: a perturbed oracle (L -> L + 1 in the link between the formal logarithm and the asymptotic class) must be refuted
     with Ctx(chk.seed) as ctx, stubs.cf_stubs():
         ctx.log_monotone = True
